@@ -1,5 +1,6 @@
 """Query definitions per property.  tier in {'quick','thorough'}."""
 from .core import Query
+from . import pre
 
 MODES = [(0, '822', 'src/is_822_local.c', 'is_822_local'),
          (1, '5321', 'src/is_5321_local.c', 'is_5321_local'),
@@ -81,13 +82,19 @@ def single_query(prefix, backend='idn2', extra=(), **kw):
 CB_UNW = 130   # > sizeof(eav_t) for the garbage-fill loop; > EEAV_MAX for the message loop
 
 
-def history_query(prefix, K, backend='idn2', extra=(), addrs=2, **kw):
+def history_query(prefix, K, backend='idn2', extra=(), addrs=2, covers_override=False, **kw):
+    if covers_override is None:
+        kw['covers'] = ['end', 'two-validations', 'idn-fault-after-earlier-validation', 'accept-after-earlier-validation']
+    return _history_query(prefix, K, backend, extra, addrs, **kw)
+
+
+def _history_query(prefix, K, backend, extra, addrs, covers=None, **kw):
     return Query('%s-api-history-%s-K%d' % (prefix, backend, K), 'c_history.c',
                  repo=['partial/%s/eav.c' % backend, 'src/eav.c'],
                  defs=D(VF_K=K, CB_ADDRS=addrs) + list(extra), unwind=CB_UNW, unwindset={'harness.1': K + 1}, leak=True,
                  idn=None if backend == 'idn2' else backend,
-                 covers=['end', 'two-validations', 'reinit-after-use', 'accept-after-earlier-validation'],
-                 optional_covers=['idn-fault-after-earlier-validation', 'failed-setup-after-success'],
+                 covers=covers or ['end', 'two-validations', 'reinit-after-use', 'accept-after-earlier-validation'],
+                 optional_covers=['idn-fault-after-earlier-validation', 'failed-setup-after-success', 'reinit-after-use'],
                  bounds={'operations': K, 'address_pool': addrs, 'settings': 'any int / bool',
                          'callback results': 'uninterpreted function of (mode,tld_check,address)'},
                  functions=API_FN, note='callbacks uninterpreted; compared with a fresh object after every validation', **kw)
@@ -150,7 +157,7 @@ def c03_queries(tier):
 
 def c04_queries(tier):
     qs = []
-    N = 9 if tier == 'quick' else 12
+    N = 11 if tier == 'quick' else 14
     for us in (0, 1):
         extra = ['-DLABELS_ALLOW_UNDERSCORE'] if us else []
         qs.append(Query('C04-domain%s-N%d' % ('-us' if us else '', N), 'a_domain.c', repo=['src/is_ascii_domain.c'],
@@ -158,13 +165,26 @@ def c04_queries(tier):
                         covers=['end', 'accepted-root-dot', 'accepted-hyphen', 'numeric', 'misplaced-hyphen'],
                         bounds={'max_len': N, 'alphabet': '0x01-0xFF', 'LABELS_ALLOW_UNDERSCORE': bool(us)},
                         functions=['is_ascii_domain'], timeout=3000))
-    K = 4
-    qs.append(Query('C04-domain-struct-K%d' % K, 'a_domain.c', repo=['src/is_ascii_domain.c'],
-                    defs=D(VF_STRUCT=K, VF_MAXLEN=262), unwind=264, unwindset={'harness.1': K + 1, 'harness.3': K + 1},
-                    covers=['end', 'rejected-label-too-long', 'accepted-label-63', 'accepted-total-253',
-                            'accepted-total-253-plus-root', 'rejected-254'],
-                    bounds={'total_len': '1..262', 'dots': '%d symbolic positions' % K, 'content': 'one symbolic fill byte + two arbitrary bytes at symbolic positions'},
-                    functions=['is_ascii_domain'], timeout=3000, weight=5))
+    def struct(name, K, maxlen, extra, covers, bounds, **kw):
+        return Query('C04-domain-struct-' + name, 'a_domain.c', repo=['src/is_ascii_domain.c'],
+                     defs=D(VF_STRUCT=K, VF_MAXLEN=maxlen) + extra, unwind=maxlen + 2,
+                     covers=['end'] + covers, bounds=bounds, functions=['is_ascii_domain'], solver='cadical', **kw)
+    edge = dict(name='edge253', K=4, maxlen=262, extra=D(VF_FIXDOTS=None, VF_MINLEN=240),
+                covers=['accepted-total-253', 'accepted-total-253-plus-root', 'rejected-254'],
+                bounds={'total_len': '240..262', 'prefix': '3 labels of 63 x "a"', 'dots': '1 further symbolic position',
+                        'content': 'fill "a" + two arbitrary bytes at symbolic positions >= 192'})
+    content = 'one symbolic fill byte + two arbitrary bytes at symbolic positions'
+    if tier == 'quick':
+        qs.append(struct('labels-K2-L72', 2, 72, [], ['rejected-label-too-long', 'accepted-label-63'],
+                         {'total_len': '1..72', 'dots': '2 symbolic positions (3 labels of length 0..70)', 'content': content},
+                         timeout=1500, weight=5))
+        qs.append(struct(timeout=1500, weight=9, **edge))
+    else:
+        qs.append(struct('labels-K4-L262', 4, 262, [], ['rejected-label-too-long', 'accepted-label-63', 'accepted-total-253',
+                                                        'accepted-total-253-plus-root', 'rejected-254'],
+                         {'total_len': '1..262', 'dots': '4 symbolic positions (up to 5 labels, root dot included)', 'content': content},
+                         timeout=7000, weight=9))
+        qs.append(struct(timeout=7000, weight=5, **edge))
     return qs
 
 
@@ -198,7 +218,95 @@ def c05_queries(tier):
     return qs
 
 
+def tldtable_query(prefix):
+    return Query(prefix + '-tldtable-vs-csv', 'a_tldtable.c', repo=['src/auto_tld.c'], stubs=[], unwind=1600,
+                 unwindset={'harness.0': 30}, object_bits=13, covers=['end'], replay=True,
+                 bounds={'rows': 'all rows of data/punycode.csv (concrete)'}, functions=['tld_list[] (data)'],
+                 note='expected table regenerated from data/punycode.csv on every run (vflib/pre.py)', timeout=1500)
+
+
+def tld_query(prefix, K, L):
+    return Query('%s-is_tld-symtable-K%d-L%d' % (prefix, K, L), 'a_tld.c', repo=['src/is_tld.c'], defs=D(VF_K=K, VF_L=L),
+                 unwind=max(K, L) + 3, covers=['end', 'listed', 'unlisted', 'one-char-extension-of-row0'],
+                 bounds={'table_rows': K, 'name_len': '1..%d' % L, 'query_len': '0..%d' % (L + 1)},
+                 functions=['is_tld'], note='real is_tld.c against a symbolic table; the step to 1591 rows rests on the loop treating rows uniformly',
+                 timeout=1500)
+
+
+def special_query(prefix, N, prefixlen=None, **kw):
+    defs = D(VF_N=N) + (D(VF_PREFIXLEN=prefixlen) if prefixlen else [])
+    return Query('%s-special-N%d%s' % (prefix, N, '-prefix%d' % prefixlen if prefixlen else ''), 'a_special.c',
+                 repo=['src/is_special_domain.c'], defs=defs, unwind=N + 3,
+                 covers=['end', 'special-tld-after-label', 'not-special'] + (['special-second-level'] if N >= 11 else []),
+                 optional_covers=['special-bare', 'special-second-level'],
+                 bounds={'max_len': N, 'domain': 'every valid host name without root dot' + (
+                     '; first <=%d bytes: one symbolic fill letter with 3 symbolic dot positions' % prefixlen if prefixlen else '')},
+                 functions=['is_special_domain'], **kw)
+
+
+def c07_queries(tier):
+    qs = [tldtable_query('C07'), tld_query('C07', 3, 3) if tier == 'quick' else tld_query('C07', 5, 5)]
+    N = 20 if tier == 'quick' else 40
+    qs += [email_query('C07', m, N, covers=['end', 'tld-class', 'not-fqdn' if m < 3 else 'accepted-hostname', 'special' if m < 3 else 'end'],
+                       timeout=3000) for m in range(4)]
+    return qs
+
+
+def c09_queries(tier):
+    if tier == 'quick':
+        return [special_query('C09', 13, timeout=1500)]
+    return [special_query('C09', 16, timeout=6000), special_query('C09', 80, prefixlen=66, timeout=6000)]
+
+
+def c11_queries(tier):
+    return [tldtable_query('C11'), tld_query('C11', 3, 3)]
+
+
+def utf8dom_query(prefix, N, M, backend='idn2', **kw):
+    return Query('%s-utf8dom-%s-N%d-M%d' % (prefix, backend, N, M), 'b_utf8dom.c',
+                 repo=['partial/%s/is_utf8_domain.c' % backend], defs=D(VF_N=N, VF_M=M), unwind=max(N, M) + 2, leak=True,
+                 idn=None if backend == 'idn2' else backend,
+                 covers=['end', 'fault-with-buffer', 'fault-without-buffer', 'accepted', 'special', 'not-fqdn', 'tld-class'],
+                 bounds={'input_len': N, 'converter_output_len': M, 'converter_rc': 'any int (2^32)', 'tld_check': 'both'},
+                 functions=['is_utf8_domain'],
+                 note='IDN converter = uninterpreted function (K1); is_ascii_domain/is_special_domain/is_tld = recording stubs', **kw)
+
+
+def c19_queries(tier):
+    K = 4 if tier == 'quick' else 6
+    N = 8 if tier == 'quick' else 24
+    return [utf8dom_query('C19', N, N),
+            email_query('C19', 3, 16 if tier == 'quick' else 40, covers=['end', 'idn-error', 'accepted-hostname']),
+            single_query('C19'),
+            history_query('C19', K, extra=['-DCB_IDN_FAULT_ONLY'], covers_override=None, timeout=3000)]
+
+
 PROPS = {
+    'C19': {
+        'queries': c19_queries,
+        'level': 'model_checking',
+        'outside': ['runs longer than the stated number of operations (history independence is C13)', 'libidn2 internals'],
+        'assumptions': ['converter contract K1: returns an error code, or OK with a NUL-terminated heap string'],
+    },
+    'C07': {
+        'queries': c07_queries, 'pre': pre.c07_pre,
+        'level': 'model_checking',
+        'outside': ['direct query of the 1591-row table with a symbolic label (no verdict within 1500 s at design time)',
+                    'mode 6531 U-label spelling: depends on libidn2 conversion (C10)'],
+        'assumptions': ['uniformity argument from a K-row symbolic table to the 1591-row table'],
+    },
+    'C09': {
+        'queries': c09_queries,
+        'level': 'model_checking',
+        'outside': ['domains longer than max_len outside the structured family'],
+        'assumptions': ['reference ref/ref_domain.h (ref_special) is the reading of the property text'],
+    },
+    'C11': {
+        'queries': c11_queries, 'pre': pre.c11_pre,
+        'level': 'translation_validation',
+        'outside': ['Text::CSV itself (replaced by a 40-line shim, stubs/perl/Text/CSV.pm, because the module is not installed)'],
+        'explanation': 'table side decided by CBMC on the compiled auto_tld.c against the CSV-derived table; generator re-run is a concrete translation-validation side check',
+    },
     'C05': {
         'queries': c05_queries,
         'level': 'model_checking',
